@@ -232,7 +232,7 @@ pub struct Rng(pub u64, pub u8);
 impl Rng { pub fn next(&mut self) -> u64 { self.0 = self.0.wrapping_mul(6364136223846793005).wrapping_add(1442695040888963407); (self.0 >> 33) } }
 pub trait Gen: Sized { fn gen(r: &mut Rng) -> Self; fn konst(_v: i32) -> Self { unimplemented!() } }
 fn gen_f(r: &mut Rng) -> f64 {
-    if r.1 == 1 { match r.next() % 8 { 0 | 1 | 2 => 0.0, 3 | 4 => 1.0, 5 => -1.0, 6 => 2.0, _ => 0.5 } } else { ((r.next() % 13) as f64 - 6.0) / 2.0 }
+    if r.1 == 1 { match r.next() % 8 { 0 | 1 | 2 => 0.0, 3 | 4 => 1.0, 5 => -1.0, 6 => 2.0, _ => 0.5 } } else { let v = ((r.next() % 13) as f64 - 6.0) / 2.0; if r.next() % 8 == 0 { v * 4.0 } else { v } }
 }
 impl Gen for f64 { fn gen(r: &mut Rng) -> f64 { gen_f(r) } fn konst(v: i32) -> f64 { v as f64 } }
 impl Gen for f32 { fn gen(r: &mut Rng) -> f32 { gen_f(r) as f32 } fn konst(v: i32) -> f32 { v as f32 } }
